@@ -43,12 +43,19 @@ def random_graph_script(rng, n_nodes, n_queries):
     cls = ["K1", "K2", "K3"]
     rels = ["r1", "r2", "r3"]
     s = []
-    # decoy graph with the same node ids, fully connected
+    # decoy graph with the same node ids: fully connected, or a star around a hub that only the decoy has (after merges
+    # the hub is a node of ANOTHER graph lying between two nodes of G)
+    star = rng.random() < 0.5
     for i in ids:
         s.append({"op": "AddNode", "g": "decoy", "n": i, "cls": "K1", "props": {}})
-    for i in range(n_nodes):
-        for j in range(i + 1, n_nodes):
-            s.append({"op": "AddLink", "g": "decoy", "a": ids[i], "b": ids[j], "rel": "r1", "props": {}})
+    if star:
+        s.append({"op": "AddNode", "g": "decoy", "n": "hub", "cls": "K2", "props": {}})
+        for i in ids:
+            s.append({"op": "AddLink", "g": "decoy", "a": i, "b": "hub", "rel": rng.choice(rels), "props": {}})
+    else:
+        for i in range(n_nodes):
+            for j in range(i + 1, n_nodes):
+                s.append({"op": "AddLink", "g": "decoy", "a": ids[i], "b": ids[j], "rel": "r1", "props": {}})
     for i in ids:
         s.append({"op": "AddNode", "g": "G", "n": i, "cls": rng.choice(cls), "props": {}})
     p = rng.choice([0.2, 0.35, 0.5])
@@ -58,7 +65,7 @@ def random_graph_script(rng, n_nodes, n_queries):
                 s.append({"op": "AddLink", "g": "G", "a": ids[i], "b": ids[j], "rel": rng.choice(rels), "props": {}})
     # history: nodes of the decoy graph merged into G leave connections from G's nodes to nodes that still carry the
     # other graph's id; queries on G must not see them
-    if rng.random() < 0.5:
+    if star or rng.random() < 0.3:
         merged = rng.sample(ids, rng.choice([2, 2, 3]))
         for x in merged:
             s.append({"op": "MergeNodes", "g": "G", "n": x, "h": "decoy", "pol": {}})
